@@ -561,6 +561,30 @@ def opSF (args obs : List String) : P String := do
     | _ => pure (reply false false m)
   | _ => throw "SF: arity"
 
+/-- `X18 <fmt> <overflow> <route> [ints] | [codes] ov un ext` — integers of any size into wide words:
+`rawctor`/`rawset`/`binraw`/`hexraw`: the integer is the code; `intval`: the integer is the value (code = v·2^n_frac).
+`ext` is the extended-precision indicator (n_word ≥ 64). -/
+def opX18 (args obs : List String) : P String := do
+  match args with
+  | [s, n, f, o, route, vs] =>
+    let fmt ← pFmt s n f
+    let o ← pOverflow o
+    let vs ← pList pInt vs
+    let ks := vs.map (fun (v : Int) => if route == "intval" then roundR .trunc (scale (v : Rat) fmt.nfrac) else v)
+    let cs := ks.map (ovf o fmt)
+    pure (functional [showList toString cs, showBool (ks.any (fun k => decide (fmt.hi < k))),
+                      showBool (ks.any (fun k => decide (k < fmt.lo))), showBool (decide (64 ≤ fmt.nword))] obs)
+  | _ => throw "X18: arity"
+
+/-- `EX <signed> <n1> <n2> | ext(after construction) ext(after resize) ext(after reset)` -/
+def opEX (args obs : List String) : P String := do
+  match args with
+  | [_s, n1, n2] =>
+    let n1 ← pNat n1
+    let n2 ← pNat n2
+    pure (functional [showBool (decide (64 ≤ n1)), showBool (decide (64 ≤ n2)), showBool (decide (64 ≤ n2))] obs)
+  | _ => throw "EX: arity"
+
 /-- `UN <op=neg|pos|abs> <fx> [codes] | s n f [codes]` — unary operators build a default-config object. -/
 def opUN (args obs : List String) : P String := do
   match args with
@@ -595,6 +619,8 @@ def dispatch (op : String) (args obs : List String) : P String :=
   | "NC" => opNC args obs
   | "DR" => opDR args obs
   | "SB" => opSB args obs
+  | "X18" => opX18 args obs
+  | "EX" => opEX args obs
   | "BW" => opBW args obs
   | "BL" => opBL args obs
   | "SF" => opSF args obs
